@@ -12,7 +12,8 @@ RULE = (
     "candidates/seeds/sets/fallback on expanded, unexpanded and skipped nodes, skipping, control, pickling, "
     "reclaim, name sanitising) with default and extreme configurations; every call runs under the "
     "sys.monitoring work meter (executed loop back-edges inside biobalm code vs the budget "
-    "B = K*(n+1)^2*(2^n+nodes+1)) and the while-loop fingerprint detector (same loop head, same frame, "
+    "B(n,nodes) = 5e4(n+1)^3 + 500(n+1)^2(2^n+nodes+1) + 64*simulation_budget*(n+1)(n+1+nodes), nodes = current "
+    "size of the diagram when the bound is reached) and the while-loop fingerprint detector (same loop head, same frame, "
     "identical locals 50 times in a row); non-trivial = history with >= 3 metered calls of which one is an "
     "attractor computation; distinct by hash of rules+history"
 )
@@ -105,11 +106,22 @@ def run_case(case):
     res.hash = hashlib.sha1((net_hash(net) + json.dumps(case["history"])).encode()).hexdigest()[:16]
     hist_done = []
 
+    bb.track_diagrams()
+    bb._LIVE_SDS.clear()
+    n1 = ref.n + 1
+    node_cap = 3 ** min(ref.n, 12)
+
     def run(fn, label, nodes):
-        # the simulation budget is a user-set amount of work: it enters the bound linearly
-        B = bb.budget_for(min(ref.n, 24), nodes) + 64 * msb * (ref.n + 1) ** 2
+        def bound():
+            # nodes = size of the largest live diagram when the bound is evaluated (at the start of the call
+            # and again whenever it is reached: whole-diagram operations grow the diagram while they run);
+            # the simulation budget is a user-set amount of work per node: it enters the bound linearly
+            k = min(max(nodes, bb.live_nodes()), node_cap)
+            return bb.budget_for(min(ref.n, 24), k) + 64 * msb * n1 * (n1 + k)
+
         try:
-            r, used = bb.metered(fn, B, fingerprints=True)
+            r, used = bb.metered(fn, bound, fingerprints=True)
+            B = bound()
         except bb.Aborted as e:
             fn_name = e.where.split(" ")[0].split(":")[0]
             res.v(
